@@ -56,7 +56,13 @@ func genCase(t *rapid.T) Case {
 	}
 	c := Case{Powers: ps, Subject: rapid.IntRange(0, n-1).Draw(t, "subject")}
 	kinds := opKinds
-	if n >= 4 && rapid.IntRange(0, 2).Draw(t, "withByzantine") == 0 {
+	if n >= 4 && rapid.IntRange(0, 1).Draw(t, "withByzantine") == 0 {
+		if rapid.Bool().Draw(t, "byzEqualPowers") {
+			for i := range ps {
+				ps[i] = 1
+			}
+			kind = 0
+		}
 		b := (c.Subject + 1 + rapid.IntRange(0, n-2).Draw(t, "byz")) % n
 		var total int64
 		for _, p := range ps {
@@ -65,6 +71,11 @@ func genCase(t *rapid.T) Case {
 		if 3*ps[b] < total {
 			c.Byz = []int{b}
 			kinds = append(append([]string{}, opKinds...), "byzvote", "byzvote", "byzvote", "byzclaim", "byzclaim", "byzprop", "split")
+			if kind == 0 {
+				// equal powers: the scripted lock attacks apply; they leave honest nodes locked in a
+				// later round than the one they locked in, with further votes signed since
+				kinds = append(kinds, "stalepolka", "stalepolka", "amnesia")
+			}
 		}
 	}
 	c.Ops = rapid.SliceOfN(rapid.Custom(func(t *rapid.T) sim.Op {
@@ -88,6 +99,15 @@ func genCase(t *rapid.T) Case {
 	c.EndOn = rapid.SampledFrom([]string{"", "", "part", "part", "vote"}).Draw(t, "endOn")
 	if c.Cut >= 0 && c.TxBytes > 0 {
 		c.Cut = rapid.IntRange(0, 40000).Draw(t, "cutBig") // offsets deep inside a large record
+	}
+	if rapid.IntRange(0, 7).Draw(t, "tornBigProfile") == 0 {
+		// a block part of several KB is the last record, it is torn far from its start, and the
+		// node crashes once more after it has gone on for a while
+		c.TxBytes = rapid.SampledFrom([]int{5000, 9000, 20000}).Draw(t, "tornTx")
+		c.PartSz = 65536
+		c.EndOn = "part"
+		c.Cut = rapid.IntRange(4000, 2*c.TxBytes+2000).Draw(t, "tornCut")
+		c.Second = rapid.IntRange(0, 30).Draw(t, "tornSecond")
 	}
 	return c
 }
@@ -400,6 +420,12 @@ func runCase(c Case, x *h.Ctx) {
 	}
 	if rotated {
 		x.Label("wal-rotated")
+	}
+	if d.Stats.StalePolkas > 0 || d.Stats.Starved > 0 {
+		x.Label("scripted-lock-attack-before-crash")
+	}
+	if c.Cut >= 4000 && c.TxBytes >= 5000 && c.Second >= 0 {
+		x.Label("torn-large-record-then-second-crash")
 	}
 	if c.Repair {
 		x.Label("excluded:proposer-cache-lost-on-reload")
